@@ -223,4 +223,107 @@ def c12(ctx):
                       "validated by TLC against Layer A (Backup linearizes once between call and return, BackupOpened = contents at that instant)")
 
 
-CHECKS = {"C02": c02, "C11": c11, "C12": c12, "C05": c05, "C01": c01, "C03": c03, "C04": c04, "C06": c06, "C09": c09}
+def stress_jobs(ctx, label, nshards, nhist, ops, keys, fss, extra=None, race=False, workers=4):
+    import concurrent.futures
+    jobs, outs = [], []
+    for i in range(nshards):
+        fsn = fss[i % len(fss)]
+        out = ctx.path("rec-%s-%d.ndjson" % (label, i))
+        outs.append(out)
+        jobs.append(["stress", "-fs", fsn, "-n", str(nhist), "-ops", str(ops), "-keys", str(keys), "-workers", str(workers), "-dir", ctx.path("tmp"),
+                     "-seed", str(ctx.seed * 7919 + i * 104729 + 1), "-out", out] + (extra or []))
+    if race:
+        ctx.build(race=True)
+        import concurrent.futures
+        def one(ja):
+            j, a = ja
+            return ctx.vrun(a, race=True, allow_crash=True, env={"GORACE": "halt_on_error=0 exitcode=0 log_path=%s" % ctx.path("race-%s-%d" % (label, j))})
+        with concurrent.futures.ThreadPoolExecutor(max_workers=CORES) as ex:
+            stats = list(ex.map(one, enumerate(jobs)))
+    else:
+        with concurrent.futures.ThreadPoolExecutor(max_workers=CORES) as ex:
+            stats = list(ex.map(lambda a: ctx.vrun(a, allow_crash=True), jobs))
+    add_stats(ctx, stats, label)
+    ctx.crashes = getattr(ctx, "crashes", []) + [(jobs[i], st["crash"]) for i, st in enumerate(stats) if st.get("crash")]
+    # a crashed driver leaves a truncated recording: validate only complete files
+    return [o for i, o in enumerate(outs) if not stats[i].get("crash")]
+
+
+def c07(ctx):
+    q = ctx.quick()
+    outs = stress_jobs(ctx, "stress", 12, 20 if q else 300, 14, 4, ALLFS, ["-maint"], workers=3)
+    outs += stress_jobs(ctx, "stress-bg", 4, 10 if q else 150, 14, 3, ("osmmap", "os", "mem", "crashfs"), ["-maint", "-bg"], workers=3)
+    jobs, o2 = fault_jobs(ctx, "seq", 4, 6 if q else 60, 50, 5, ["-inject"])
+    add_stats(ctx, ctx.vrun_parallel(jobs), "compact-inject")
+    rejs = ctx.validate(outs + o2, dfs=True)
+    ctx.sample_from(outs[0], 1)
+    ctx.report_rejections(rejs, describe_generic)
+    h = ctx.cov["harness"]
+    ctx.cov["evaluations"] = ctx.cov["events"]
+    ctx.cov["distinct_nontrivial"] = h["stress"].get("histories", 0) + h["stress-bg"].get("histories", 0) + h["compact-inject"].get("programs", 0)
+    ctx.assumptions += ["invocation events are logged before the call starts and response events after it returned, under one mutex: the order of the lines respects real time, so any linearization point lies between them",
+                        "no hook marks linearization points: TLC searches them (silent Lin steps), a differently structured correct implementation cannot be rejected"]
+    return ctx.finish("model_checking", "free-running histories: 2-5 goroutines x 14 Put/Delete/Get/GetAppend/Has/Count calls on 3-4 hot keys with per-producer values, plus a goroutine running Compact, Sync, Backup, whole Items scans, Count, FileSize, Metrics, "
+                      "half of the bg runs with the background sync/compaction workers at 2-3 ms; on crashfs, fs.Mem, fs.OS, fs.OSMMap; plus deterministic histories with writers forced into the lock-release windows of Compact through the yield hook; "
+                      "TLC searches linearization points against Layer A (Inv / silent Lin / Ret), final quiescent read-back and clean reopen compared exactly")
+
+
+def race_reports(ctx):
+    """Parses the Go race detector's reports into signatures (the pogreb frames of both accesses)."""
+    import glob, re
+    sigs = {}
+    for f in glob.glob(ctx.path("race-*")):
+        txt = open(f, errors="replace").read()
+        for block in txt.split("WARNING: DATA RACE")[1:]:
+            frames = re.findall(r"^\s+(github\.com/akrylysov/pogreb[^\s(]*)\(.*\n\s+(\S+?):(\d+)", block, re.M)
+            top = []
+            for part in re.split(r"\n\n", block)[:2]:
+                m = re.search(r"^\s+(github\.com/akrylysov/pogreb[^\s(]*)\(.*\n\s+\S*?/((?:fs/)?[\w.]+\.go):(\d+)", part, re.M)
+                if m:
+                    top.append("%s@%s" % (m.group(1).split("pogreb")[-1].lstrip("/."), m.group(2)))
+            sig = " <-> ".join(sorted(top)) or "unparsed"
+            sigs.setdefault(sig, block[:1500])
+    return sigs
+
+
+def c10(ctx):
+    q = ctx.quick()
+    outs = stress_jobs(ctx, "race-stress", 12, 8 if q else 120, 14, 4, ("mem", "os", "osmmap"), ["-maint", "-closemid", "-bg"], race=True, workers=3)
+    outs += stress_jobs(ctx, "close-race", 4, 20 if q else 200, 10, 3, ALLFS, ["-maint", "-closemid"], workers=3)
+    races = race_reports(ctx)
+    extra = ctx.path("rec-race-events.ndjson")
+    with open(extra, "w") as f:
+        for sig, rep in sorted(races.items()):
+            f.write(json.dumps({"e": "reset", "syncw": False, "strict": False, "bg": False, "dur": False, "id": "race-detector", "fs": "-"}) + "\n")
+            f.write(json.dumps({"e": "race", "sig": sig, "report": rep}) + "\n")
+        for job, crash in getattr(ctx, "crashes", []):
+            fsn = job[job.index("-fs") + 1]
+            f.write(json.dumps({"e": "reset", "syncw": False, "strict": False, "bg": False, "dur": False, "id": "process-died", "fs": fsn, "job": job}) + "\n")
+            f.write(json.dumps({"e": "fault", "what": crash, "fs": fsn}) + "\n")
+    ctx.cov["race_reports"] = len(races)
+    ctx.cov["process_crashes"] = len(getattr(ctx, "crashes", []))
+    rejs = ctx.validate(outs + ([extra] if races or getattr(ctx, "crashes", []) else []), dfs=True)
+    ctx.sample_from(outs[0], 1)
+
+    def describe(rej):
+        sig, text = describe_generic(rej)
+        try:
+            ev = json.loads(rej["chunk"][rej["at"] - 1])
+            if ev.get("e") == "race":
+                return "event=race " + ev["sig"], "data race reported by the Go race detector: " + ev["sig"]
+            if ev.get("e") in ("stuck", "leak", "fault"):
+                return "event=" + ev["e"], "%s: %s" % (ev["e"], ev.get("what", "")[:600])
+        except Exception:
+            pass
+        return sig, text
+    ctx.report_rejections(rejs, describe)
+    h = ctx.cov["harness"]
+    ctx.cov["evaluations"] = ctx.cov["events"]
+    ctx.cov["distinct_nontrivial"] = h["race-stress"].get("histories", 0) + h["close-race"].get("histories", 0)
+    ctx.assumptions += ["data races and memory faults are not expressible in TLA+: they are observed by the Go race detector / SetPanicOnFault on these schedules and enter the recording as events no Layer-A action accepts; completeness is that of the schedules run"]
+    return ctx.finish("model_checking", "free-running histories built with -race: workers + maintenance goroutine (Compact, Sync, Backup, scans, FileSize, Metrics) + background workers, Close fired at a random point of half of the histories; "
+                      "panics -> fault events, 20 s without progress -> stuck event with goroutine dump, goroutines inside pogreb after Close returned -> leak event, race-detector reports -> race events; "
+                      "TLC validates against Layer A: results of calls overlapping Close must be an error or a legal linearized effect, the directory reopens with exactly the linearized contents; fault/stuck/leak/race events are never accepted")
+
+
+CHECKS = {"C07": c07, "C10": c10, "C02": c02, "C11": c11, "C12": c12, "C05": c05, "C01": c01, "C03": c03, "C04": c04, "C06": c06, "C09": c09}
